@@ -169,7 +169,22 @@ func TestVerifC19W(t *testing.T) {
 						if active {
 							cfg.HealthChecks.Active = config.ActiveHealthCheckConfig{Enabled: true, Interval: 3600, Timeout: 5, Path: "/"}
 						}
+						// (the harness learns from the server's connection-state hook when a connection has
+						// been taken up: a signal must not overtake the accept of the connection it is placed
+						// against)
+						taken := make(chan struct{}, 64)
+						kitOnServer = func(srv *http.Server) {
+							srv.ConnState = func(_ net.Conn, st http.ConnState) {
+								if st == http.StateNew {
+									select {
+									case taken <- struct{}{}:
+									default:
+									}
+								}
+							}
+						}
 						h, err := startHelios(cfg)
+						kitOnServer = nil
 						if err != nil {
 							t.Fatal(err)
 						}
@@ -248,12 +263,20 @@ func TestVerifC19W(t *testing.T) {
 						case "request-header-half-sent":
 							// the client has connected and sent half of its request header when the signal
 							// arrives, and the rest 150 ms later (the quantifier's "before headers")
+							for len(taken) > 0 {
+								<-taken
+							}
 							c, err := net.Dial("tcp", h.addr)
 							if err != nil {
 								t.Fatal(err)
 							}
 							fmt.Fprintf(c, "GET / HTTP/1.1\r\nHost: x.te")
-							time.Sleep(30 * time.Millisecond) // let the server take the connection up
+							select {
+							case <-taken: // the server has taken the connection up
+							case <-time.After(10 * time.Second):
+								t.Fatalf("%s n=%d: the server never took up the connection", strat, n)
+							}
+							time.Sleep(30 * time.Millisecond)
 							signal()
 							time.Sleep(150 * time.Millisecond)
 							fmt.Fprintf(c, "st\r\nX-Forwarded-For: 10.9.8.7\r\n\r\n")
